@@ -138,6 +138,7 @@ class PolyhedralIoContract(IoContract):
         for kw in ("assumptions", "guarantees", "input_vars", "output_vars"):
             if kw not in contract:
                 raise ValueError(f"Passed dictionary does not have key {kw}.")
+        serializer.validate_contract_dict(contract, "dictionary", machine_representation=True)
 
         if all(isinstance(x, dict) for x in contract["assumptions"]):
             a = PolyhedralTermList(
